@@ -317,7 +317,9 @@ do_email (long *v, int nv)
                 else alt = rc;     /* literal: no public composite validator to compare with */
                 if (alt >= 0) alt = 1000;
             }
-            else if (*D == '[' && end[-1] == ']' && end - D >= 3) {
+            else if (*D == '[' && end[-1] == ']' && end - D > 8) {
+                /* (literals of at most 8 octets, brackets included, are shorter than "[1.2.3.4]": the library refuses them before it
+                 * looks inside; only untagged IPv6 spellings such as [1::], which C05 merely tolerates, are that short) */
                 /* literal: the public validators decide the two spellings the properties require (plain dotted quad, exact
                  * "IPv6:" tag); the untagged IPv6 spelling is only tolerated and is left alone */
                 const char *c = D + 1, *ce = end - 1;
